@@ -316,14 +316,7 @@ def run(ctx):
       else: ctx.hit(ev[1], ev[2], ev[3])
   def add(case, out, d):
     cases.append(case); impl.append(out); descr.append(d)
-  # ordering across shapes (ValueError when the children counts differ), mixed value types
-  pool = [(1, []), (1.0, []), (1.5, []), ('a', []), ('b', []), (None, []), (0, [(1, []), (2, [])]), (0, [(1, []), (3, [])]), (0, [(1, [])]),
-          (None, [(0, []), ('a', [])]), (None, [(0, []), (0.5, [])]), (2, [(0.5, [])])]
-  for a in pool:
-    for b in pool:
-      da, db = G.tree_to_dna(a), G.tree_to_dna(b)
-      add([4, G.tree_tr(G.dna_to_tree(da)), G.tree_tr(G.dna_to_tree(db))], [trlib.opt(cmp_impl(da, db))], dict(op='cmp', a=str(da), b=str(db)))
-      ctx.count(('cmp', str(da), str(db)), nontrivial=True, kind='cmp-mixed')
+  # (DNA.__cmp__ across different shapes / value types is outside the property: only DNAs of one specification are compared)
   ctx.log('%d cases over %d specifications; running the model' % (len(cases), len(specs)))
   outs = ctx.model_run(cases)
   look = {id(c): d for c, d in zip(cases, descr)}
@@ -335,7 +328,9 @@ def run(ctx):
   # targeted search when something is broken and the oracle found nothing yet: iterate many more small specs with the oracle only
   if ctx.is_broken() and not ctx.hits:
     probe = Rec()
+    t_search = time.time()
     for s in small[:: max(1, len(small) // 400)]:
+      if time.time() - t_search > ctx.scale(25, 300): break
       if G.size(s) > 120: continue
       pg = G.to_pg(s)
       vs = G.all_valid(s)
